@@ -7,6 +7,7 @@ import (
 	"encoding/binary"
 	"fmt"
 	"os"
+	"strings"
 	"sync"
 	"testing"
 	"testing/synctest"
@@ -236,6 +237,8 @@ func bubbleAgg(c *explore.Ctx) (out outcome) {
 		return a
 	}
 	lastWrite := ""
+	reported := uint64(0)
+	var crashFail *world.Fail
 	onWrite := func(idx int, w world.Write) bool {
 		if !armed || settled {
 			return false
@@ -243,9 +246,41 @@ func bubbleAgg(c *explore.Ctx) (out outcome) {
 		if c.Choose("crash", 2) == 1 {
 			ev("crash before write %s (after %s)", w, lastWrite)
 			addTag("crash")
+			// what an observer could have read at the crash instant counts as reported
+			if got := n.M.GetDAIncludedHeight(); got > reported {
+				reported = got
+				if f := checkFinalLog(env.Exec, initial, got, crashes); f != nil && crashFail == nil {
+					f.Msg = "at the crash instant: " + f.Msg
+					crashFail = f
+				}
+			}
 			return true
 		}
 		lastWrite = w.String()
+		return false
+	}
+	// the execution layer may refuse one finalize call, and the write that persists the DA-included height may fail once
+	faultInjected := ""
+	env.Exec.FinalPolicy = func(h uint64) bool {
+		if !armed || settled || faultInjected != "" {
+			return false
+		}
+		if c.Choose("fault", 2) == 1 {
+			faultInjected = fmt.Sprintf("finalize(%d) refused", h)
+			ev("%s", faultInjected)
+			return true
+		}
+		return false
+	}
+	failWrite := func(idx int, w world.Write) bool {
+		if !armed || settled || faultInjected != "" || !strings.Contains(w.String(), "put(/m/d)") {
+			return false
+		}
+		if c.Choose("fault", 2) == 1 {
+			faultInjected = "persisting the DA-included height failed"
+			ev("%s", faultInjected)
+			return true
+		}
 		return false
 	}
 	errCh := make(chan error, 8)
@@ -258,7 +293,6 @@ func bubbleAgg(c *explore.Ctx) (out outcome) {
 		sched.Go("data-submit", func() { m.DataSubmissionLoop(ctx) })
 		sched.Drain()
 	}
-	reported := uint64(0)
 	boot := func(img map[string][]byte, root string) *world.Fail {
 		pp := p
 		pp.RootDir = root
@@ -267,6 +301,10 @@ func bubbleAgg(c *explore.Ctx) (out outcome) {
 			return &world.Fail{Clause: "startup", Msg: "node cannot start: " + err.Error()}
 		}
 		n = nn
+		n.KV.FailWrite = failWrite
+		if crashFail != nil {
+			return crashFail
+		}
 		got := n.M.GetDAIncludedHeight()
 		if got < reported {
 			return &world.Fail{Clause: "monotone-across-restart", Msg: fmt.Sprintf("DA-included height was %d before the restart and is %d after it", reported, got)}
@@ -299,10 +337,14 @@ func bubbleAgg(c *explore.Ctx) (out outcome) {
 		produceAsync()
 		sched.Drain()
 	}
+	halted := false
 	observe := func(when string) *world.Fail {
 		select {
 		case err := <-errCh:
-			return &world.Fail{Clause: "includer-halts", Msg: when + ": the inclusion loop stopped with a fatal error: " + err.Error()}
+			if faultInjected == "" {
+				return &world.Fail{Clause: "includer-halts", Msg: when + ": the inclusion loop stopped with a fatal error: " + err.Error()}
+			}
+			halted = true // a refused finalize / failed write legitimately stops the node; what it reports must still be sound
 		default:
 		}
 		got := n.M.GetDAIncludedHeight()
@@ -363,6 +405,19 @@ func bubbleAgg(c *explore.Ctx) (out outcome) {
 		}
 		if f := observe(fmt.Sprintf("DA block %d", tick)); f != nil {
 			return fail(f)
+		}
+		if halted {
+			// the node stopped on the injected fault: after a restart it must come back with a height that did not
+			// go backwards (checked in boot) — then the run ends
+			cancel()
+			n.Fate.Kill()
+			sched.Drain()
+			synctest.Wait()
+			if f := boot(n.KV.Image(), root); f != nil {
+				return fail(f)
+			}
+			out.sig = fmt.Sprintf("halted on %s, included=%d", faultInjected, reported)
+			return
 		}
 		if !settled && c.Choose("restart", 2) == 1 {
 			ev("clean restart")
@@ -595,7 +650,7 @@ func TestCheck(t *testing.T) {
 	if r.RunShards(16) { // bubble-heavy: one process per shard of the exploration
 		return
 	}
-	budA := vf.Pick(r, map[string]int{"da": 1, "crash": 1, "restart": 1, "sched": 1}, map[string]int{"da": 2, "crash": 1, "restart": 1, "sched": 2})
+	budA := vf.Pick(r, map[string]int{"da": 1, "crash": 1, "restart": 1, "sched": 1, "fault": 1}, map[string]int{"da": 2, "crash": 1, "restart": 1, "sched": 2, "fault": 1})
 	budB := vf.Pick(r, map[string]int{"crash": 1, "restart": 1, "sched": 1}, map[string]int{"crash": 1, "restart": 1, "sched": 2})
 	patternsB := vf.Pick(r, []string{"ab", "ea"}, []string{"ab", "ea", "ae", "abe"})
 	r.Assume = []string{
